@@ -50,9 +50,75 @@ def _observe(c, spec, est, cfg, Xp):
     return out
 
 
+def _run_text(c):
+    """The traceable vectorizers: a vocabulary learned by an earlier fit."""
+    from mlinsights.mlmodel import TraceableCountVectorizer, TraceableTfidfVectorizer
+
+    ch = c.ch
+    cls = ch.choice("w", [TraceableCountVectorizer, TraceableTfidfVectorizer], "vectorizer")
+    ngram = ch.choice("w", [(1, 1), (1, 2)], "ngram_range")
+    seed = ch.subseed("w", "data")
+    rs = numpy.random.RandomState(seed)
+    words = ["alpha", "beta", "gamma", "delta", "one", "two", "three", "four", "five", "six", "seven"]
+
+    def corpus(lo, hi):
+        return [" ".join(words[i] for i in rs.randint(lo, hi, rs.randint(2, 7))) for _ in range(rs.randint(2, 6))]
+
+    A, B = corpus(0, 6), corpus(3, len(words))
+    probe = A + B
+    first = ch.choice("w", ["fit", "fit_transform"], "first-fit")
+    second = ch.choice("w", ["fit", "fit_transform"], "second-fit")
+    between = ch.choice("w", ["names", "transform", "names+transform", "nothing"], "between")
+    name = cls.__name__
+    c.scenario = {"class": name, "template": "text", "ngram_range": ngram, "first": first, "between": between, "second": second, "data_seed": seed}
+    c.signature = [name, "text", ngram, first, between, second]
+    c.entropy = E.Entropy("pinned")
+    c.fault_plan = None
+    seen = set()
+
+    def observe(v):
+        out = {}
+        for what, fn in (("feature_names", lambda: list(v.get_feature_names_out())), ("transform", lambda: v.transform(probe).toarray()), ("vocabulary", lambda: sorted((str(k), int(j)) for k, j in v.vocabulary_.items()))):
+            try:
+                out[what] = fn()
+            except Exception as e:  # noqa: BLE001
+                out[what] = "raised:" + type(e).__name__
+        return out
+
+    x = cls(ngram_range=ngram)
+    ok, _ = U.sut(c, first + "(A)", getattr(x, first), A)
+    if not ok:
+        c.probe("fit_raised_on_generated_data:" + name)
+        return
+    if "names" in between:
+        U.sut(c, "get_feature_names_out", x.get_feature_names_out)
+    if "transform" in between:
+        U.sut(c, "transform", x.transform, A)
+    ok, _ = U.sut(c, second + "(B)", getattr(x, second), B)
+    f = cls(ngram_range=ngram)
+    ok2, _ = U.sut(c, "fresh.fit(B)", f.fit, B)
+    if not (ok and ok2):
+        c.probe("fit_raised_on_generated_data:" + name)
+        return
+    got, want = observe(x), observe(f)
+    for what in sorted(want):
+        a, b = got[what], want[what]
+        same = numpy.array_equal(a, b) if isinstance(b, numpy.ndarray) and isinstance(a, numpy.ndarray) else a == b
+        if not same:
+            sig = (PROP, "refit-differs-from-fresh", name, what)
+            if sig not in seen:
+                seen.add(sig)
+                c.violation(PROP, "refit-differs-from-fresh", sig, "%s(A); %s; %s(B) differs from fresh.fit(B) in %s: %r vs %r | scenario: %r" % (first, between, second, what, a if not isinstance(a, numpy.ndarray) else a.shape, b if not isinstance(b, numpy.ndarray) else b.shape, c.scenario))
+    c.nontrivial = True
+    c.probe("text_vectorizer_scenario")
+
+
 def run(c, index, tier):
     ch = c.ch
     seen = set()
+    if ch.draw("w", 14, "text-branch") == 13:
+        _run_text(c)
+        return
     spec = ch.choice("w", R.SPECS, "spec")
     cfg = spec.draw(ch)
     if "n_jobs" in cfg:
